@@ -27,18 +27,4 @@ def uo0 : TxOut := { value := 60000000, script := p2pkhScript (List.replicate 20
 def inp0 : TxIn := { txid := List.replicate 32 9, vout := 1, scriptSig := [], sequence := 5 }
 def t0 : Tx := { version := 2, ins := [inp0], outs := [{ value := 1, script := [0x6a] }], wit := none, lockTime := 0 }
 
-theorem noCross0 : NoCross (keyTable H0 c0.bech32 [pub0]) := by
-  intro k k' kr kr' h1 h2
-  have e1 : kr = mkKey H0 false pub0 := by
-    cases k with
-    | zero => simpa [keyTable, c0] using h1.symm
-    | succ k => simp [keyTable] at h1
-  have e2 : kr' = mkKey H0 false pub0 := by
-    cases k' with
-    | zero => simpa [keyTable, c0] using h2.symm
-    | succ k => simp [keyTable] at h2
-  subst e1; subst e2
-  decide
-
-
 end GocoinV.WalletTx.Demo
